@@ -355,12 +355,18 @@ def quiver(w, ds, conv, e) -> dict:
 
 
 def execute_cells(case: dict) -> dict:
+    from . import viafile
     w = case["world"]
-    ds = W.build(w)
-    conv = W.bind(w, ds)
-    rec = {"tid": case["tid"], "src": case["src"], "w": tlc_world(w, ds), "events": []}
-    for e in case["events"]:
-        rec["events"].append(run_event(w, ds, conv, e))
-    return rec
+    held = viafile.hold(w, W.build(w))        # in memory / reopened lazily from a file / dask-backed ... (w["via"])
+    try:
+        ds = held.ds
+        conv = W.bind(w, ds)
+        rec = {"tid": case["tid"], "src": case["src"], "w": tlc_world(w, ds), "events": []}
+        rec["w"]["via"] = w.get("via", "memory") + ("+bounds-as-coords" if w.get("bounds_as_coords") else "")
+        for e in case["events"]:
+            rec["events"].append(run_event(w, ds, conv, e))
+        return rec
+    finally:
+        held.close()
 
 
